@@ -186,6 +186,14 @@ func readFilesAsKeys(files []string, basePath string, encryptor keystore.KeyEncr
 func (store *KeyBackuper) Export(exportIDs []keystore.ExportID, mode keystore.ExportMode) (*keystore.KeysBackup, error) {
 	var exportedKeys []*keystore.Key
 	var err error
+	// private key material read for explicit export IDs: wiped when Export returns,
+	// that is after it has been serialized and encrypted (not before)
+	var secretsToWipe [][]byte
+	defer func() {
+		for _, secret := range secretsToWipe {
+			utils.ZeroizeBytes(secret)
+		}
+	}()
 
 	if len(exportIDs) != 0 {
 		for _, exportID := range exportIDs {
@@ -215,7 +223,7 @@ func (store *KeyBackuper) Export(exportIDs []keystore.ExportID, mode keystore.Ex
 					return nil, err
 				}
 
-				utils.ZeroizeBytes(keypair.Private.Value)
+				secretsToWipe = append(secretsToWipe, keypair.Private.Value)
 				exportedKeys = append(exportedKeys, &keystore.Key{
 					Name:    PoisonKeyFilename,
 					Content: keypair.Private.Value,
@@ -244,7 +252,7 @@ func (store *KeyBackuper) Export(exportIDs []keystore.ExportID, mode keystore.Ex
 					log.WithError(err).Error("Cannot read client storage private key")
 					return nil, err
 				}
-				utils.ZeroizeBytes(key.Value)
+				secretsToWipe = append(secretsToWipe, key.Value)
 				exportedKeys = append(exportedKeys, &keystore.Key{
 					Name:    GetServerDecryptionKeyFilename(exportID.ContextID),
 					Content: key.Value,
@@ -255,7 +263,7 @@ func (store *KeyBackuper) Export(exportIDs []keystore.ExportID, mode keystore.Ex
 					log.WithError(err).Error("Cannot read client symmetric key")
 					return nil, err
 				}
-				utils.ZeroizeBytes(key)
+				secretsToWipe = append(secretsToWipe, key)
 				exportedKeys = append(exportedKeys, &keystore.Key{
 					Name:    getClientIDSymmetricKeyName(exportID.ContextID),
 					Content: key,
@@ -266,7 +274,7 @@ func (store *KeyBackuper) Export(exportIDs []keystore.ExportID, mode keystore.Ex
 					log.WithError(err).Error("Cannot read client symmetric key")
 					return nil, err
 				}
-				utils.ZeroizeBytes(key)
+				secretsToWipe = append(secretsToWipe, key)
 				exportedKeys = append(exportedKeys, &keystore.Key{
 					Name:    getHmacKeyFilename(exportID.ContextID),
 					Content: key,
